@@ -22,7 +22,7 @@ SUL_TOO_LONG = 'len(str(self.sequence_number)) > 4 or len(str(self.max_record_le
 
 CONTRACTS = {
  'get_ascii_bytes': dict(
-    props=['C01', 'C09', 'C12'],
+    props=['C01', 'C09', 'C12', 'C06'],
     params={'value': 'str', 'required_length': 'int', 'justify_left': 'bool'}, returns='bytes',
     requires=['required_length >= 0'],
     raises={'ValueError': 'len(value) > required_length', 'UnicodeEncodeError': 'len(value) <= required_length and not all_ascii(value)'},
